@@ -44,7 +44,7 @@ MC_CFG = """CONSTANTS
   LogScale = %d
   Layouts <- MCLayouts
   MVals <- MCMVals
-  NRows = 2
+  NRows = %d
   RegKinds <- MCRegKinds
   SPats <- MCSPats
   JunkFills <- MCJunkFills
@@ -497,7 +497,7 @@ def random_fit_sources(rng, count, max_side, junk_fills):
         u = [int(x) for x in np.flatnonzero(m)]
         n = len(u)
         out.append({"h": h, "w": w, "u": u, "d": [int(x) for x in rng.integers(-2, 4, size=n)], "m": [int(x) for x in rng.integers(-2, 4, size=n)],
-                    "e": [int(x) for x in rng.integers(-1, 2, size=n)], "sky": int(rng.integers(-2, 3)), "mk": "int", "inv": {"kind": "none"},
+                    "e": [int(x) for x in rng.integers(-1, 2, size=n)], "sky": int(rng.integers(-2, 3)) if n <= 36 else int(rng.integers(-1, 2)), "mk": "int", "inv": {"kind": "none"},
                     "modes": modes_for(h, w, u, junk_fills), "origin": "random"})
     return out
 
@@ -609,31 +609,46 @@ def validate(ctx, records, tag, chunk=3000):
     return rejects
 
 
+def _det_decidable(iv):
+    """mirror of DetSafe in Fit.tla (only for reporting how many records the determinant clauses decided)"""
+    idx, off = [], 0
+    for o in iv["objs"]:
+        if o["reg"]:
+            idx += list(range(off, off + o["p"]))
+        off += o["p"]
+    nr = len(idx)
+    if nr > 4:
+        return False
+    lim = 20000 if nr <= 2 else (500 if nr == 3 else 96)
+    for M in (iv["FH"], iv["H"]):
+        if any(abs(M[a][b_]) > lim for a in idx for b_ in idx):
+            return False
+    return True
+
+
 # ------------------------------------------------------------------------------------------------------------
 def run(ctx):
     quick = ctx.quick
     rng = np.random.default_rng(ctx.seed)
     b = {
-        "full_shapes": [(1, 1), (1, 2), (2, 2)] if quick else [(1, 1), (1, 2), (2, 1), (2, 2)],
+        "full_shapes": [(1, 1), (1, 2), (2, 2)] if quick else [(1, 1), (1, 2), (2, 1)],
         "full_max_unmasked": 1 if quick else 2,
-        "pattern_shapes": [(2, 3), (1, 4), (3, 3)] if quick else [(2, 3), (3, 2), (1, 4), (3, 3), (2, 4)],
+        "pattern_shapes": [(2, 3), (1, 4), (3, 3)] if quick else [(2, 2), (2, 3), (3, 2), (1, 4), (3, 3), (2, 4)],
         "inversion_shapes": [(1, 2)],
         "values": [-2, 3], "noise_exponents": [-1, 0, 1],
         "skies": [-1, 0, 2],
-        "patterns": 4 if quick else 8,
+        "patterns": 4 if quick else 6,
         "layouts": ["R2", "R1N1", "N1R2", "N2", "R1N1R1"] if quick else ["R2", "R1N1", "N1R2", "N2", "R1N1R1", "R3", "R2N1R1", "N1R2N1", "R2R2"],
-        "design_matrix_values": [0, 1] if quick else [0, 1, 2],
+        "design_matrix_values": [0, 1], "design_matrix_rows": 2 if quick else 3,
         "reg_kinds": [(1, 0), (4, 0), (4, 1)],
         "reconstruction_patterns": [[1, 2, 3, 1], [3, 0, 2, 5]],
         "junk_fills": [0, 1, 2],
-        "random_datasets": 250 if quick else 3000, "random_max_side": 6 if quick else 9,
+        "random_datasets": 250 if quick else 3000, "random_max_side": 6 if quick else 8,
         "real_lattice_inversions": 90 if quick else 900, "real_generic_inversions": 16 if quick else 120,
     }
-    if not quick:
-        b["design_matrix_values_note"] = "layouts with 4 parameters use the same value set"
     ctx.bounds = b
     patterns = make_patterns(rng, b["patterns"], 12, b["values"], b["noise_exponents"])
-    res = ctx.tlc("Fit", MC_CFG % (b["full_max_unmasked"], S) + MC_CFG_TAIL, defs=mc_defs(b, patterns), tag="MC_Fit", timeout=3000)
+    res = ctx.tlc("Fit", MC_CFG % (b["full_max_unmasked"], S, b["design_matrix_rows"]) + MC_CFG_TAIL, defs=mc_defs(b, patterns), tag="MC_Fit", timeout=3000)
     insts = res.by_kind("inst")
     n_fit = sum(1 for r in insts if not r["hasinv"])
     n_inv = len(insts) - n_fit
@@ -646,6 +661,8 @@ def run(ctx):
     rnd = random_fit_sources(rng, b["random_datasets"], b["random_max_side"], b["junk_fills"])
     real = [lattice_inversion_source(rng, k) for k in range(b["real_lattice_inversions"])]
     gen = [generic_inversion_source(rng, k) for k in range(b["real_generic_inversions"])]
+    for sid, sc_ in enumerate(srcs + rnd + real + gen):
+        sc_["sid"] = sid
     # cheap sources in big groups, real inversions in small ones
     groups = [srcs[k: k + 200] for k in range(0, len(srcs), 200)] + [rnd[k: k + 20] for k in range(0, len(rnd), 20)]
     groups += [real[k: k + 4] for k in range(0, len(real), 4)] + [gen[k: k + 1] for k in range(0, len(gen), 1)]
@@ -661,10 +678,15 @@ def run(ctx):
                 "regularizations": rl["_src"]["inv"]["regs"], "layout": [o["type"] for o in rl["_src"]["inv"]["inst"]["objs"]]})
     rejects = validate(ctx, recs, "C08")
     lat = [r for r in recs if r["hasinv"] and r["inv"]["lat"]]
+    decided = sum(1 for r in lat if _det_decidable(r["inv"]))
+    decided_real = sum(1 for r in lat if r["_src"]["inv"]["kind"] == "real" and _det_decidable(r["inv"]))
+    solved = len({r["_src"]["sid"] for r in recs if r["_src"]["inv"]["kind"] == "real"})
+    ctx.note(f"{solved} of {len(real) + len(gen)} generated real inversions were solvable by the library's solver (the others are left to C05) and "
+             f"contributed records")
     ctx.note(f"TLC enumerated {n_fit} datasets x models x skies and {n_inv} inversion cases; {len(recs)} records "
              f"({sum(1 for r in recs if r['mode'] == 'native')} masked-native, {sum(1 for r in recs if r['junk'])} with junk in masked cells, "
              f"{sum(1 for r in recs if r['hasinv'])} with an inversion of which {sum(1 for r in recs if r['hasinv'] and r['_src']['inv']['kind'] == 'real')} "
-             f"on real aa.Inversion objects; determinant/quadratic-form clauses apply to {len(lat)} lattice records) validated by Trace_Fit; "
+             f"on real aa.Inversion objects; determinant/quadratic-form clauses decided on {decided} of {len(lat)} lattice records, {decided_real} of them real) validated by Trace_Fit; "
              f"{len(rejects)} rejected")
     ctx.assumptions = [
         "ln(2 pi sigma^2) enters as a constant table computed by math.log at scale 1e5; fixed-point compositions carry the derived rounding bounds "
